@@ -5,7 +5,12 @@ set -e
 REPO=${VERIF_REPO:-/repo}
 B=$REPO/_build
 [ -f $B/build.ninja ] || cmake -G Ninja -B $B -S $REPO -DCMAKE_BUILD_TYPE=RelWithDebInfo -DCMAKE_C_FLAGS=-Wno-error -DCMAKE_CXX_FLAGS=-Wno-error >/dev/null
-cmake --build $B >/dev/null 2>&1 || { cmake --build $B 2>&1 | tail -30; echo "BUILD FAILED"; exit 1; }
+# a fresh build directory needs two passes (the ansic targets of the repository link before libyaep.a exists)
+ok=0
+for pass in 1 2 3 4; do
+  if cmake --build $B >/dev/null 2>&1; then ok=1; break; fi
+done
+[ $ok = 1 ] || { cmake --build $B 2>&1 | tail -30; echo "BUILD FAILED"; exit 1; }
 J=$(mktemp /tmp/vf_junit.XXXXXX)
 ctest --test-dir $B -j8 --timeout 900 --output-junit $J >/dev/null 2>&1 || true
 python3 - "$J" <<'P'
